@@ -22,7 +22,7 @@ fn run_line(line: &str, aug: bool) -> String {
         "surf" => surface::run(&toks[1..]),
         "scene" => scene::run(&toks[1..], aug),
         "fmt" => format::run(&toks[1..]),
-        k @ ("pcontains" | "pflatten" | "pdash" | "pstroke" | "prect" | "ptransform" | "parc") => pathops::run(k, &toks[1..], aug),
+        k @ ("pcontains" | "pflatten" | "pdash" | "pstroke" | "prect" | "ptransform" | "parc" | "pbuild") => pathops::run(k, &toks[1..], aug),
         k => panic!("unknown case kind {}", k),
     }
 }
